@@ -10,6 +10,6 @@ CONSTANTS
   Monitor = TRUE
   Hist = FALSE
   GenMinM = 0
-INVARIANTS NoViolation C08_Safe C10_Cap C15_Quiescent C15_NoWrap C11_Panics C09_Safe
+INVARIANTS NoViolation C08_Safe C10_Cap C10_NeverBlocked C15_Quiescent C15_NoWrap C11_Panics C09_Safe
 PROPERTIES C08_Live C09_Live
 CHECK_DEADLOCK FALSE
